@@ -34,7 +34,7 @@
     attribute value, a document without element or whose entity declarations were removed) are
     refuted on the implementation by that check and listed as findings with narrow classifiers. *)
 From Coq Require Import List NArith Bool.
-From XmlRs Require Import Base.CPred Spec.XmlChars Spec.DomCharData Model.Store Model.DomOps
+From XmlRs Require Import Base.CPred Spec.XmlChars Spec.DomCharData Model.Store Model.StoreCheck Model.PrintableCheck Model.DomOps
   Proofs.DomOpsInv Proofs.CharDataProofs Proofs.DomPrintable.
 From XmlRs Require Model.CharData.
 Import ListNotations.
@@ -122,6 +122,12 @@ Example ex_history :
      = Some ([97; 93; 93], [97; 45; 121; 45; 98]).
 Proof. vm_compute. repeat split. Qed.
 
+(** the hypothesis [WPrintable init] is decidable on the finite tables the model driver builds from
+    the implementation's dump of the parsed documents, and is evaluated there for every case *)
+Theorem C15_printable_checkable : forall l nx decl root, printable_b l = true -> Printable (store_of_list l nx decl root).
+Proof. exact printable_b_sound. Qed.
+
+Print Assumptions C15_printable_checkable.
 Print Assumptions C15_step_printable.
 Print Assumptions C15_printable_reachable_partial.
 Print Assumptions C15_printable_reachable_data.
